@@ -140,9 +140,6 @@ func (w *World) iterOp(t []string) string {
 			out = append(out, "C")
 		}
 	}
-	if err := it.Err(); err != nil {
-		out = append(out, errClass(err))
-	}
 	// the producer goroutine must exit and release the version it pinned
 	deadline := time.Now().Add(2 * time.Second)
 	for time.Now().Before(deadline) {
@@ -150,6 +147,10 @@ func (w *World) iterOp(t []string) string {
 			break
 		}
 		time.Sleep(200 * time.Microsecond)
+	}
+	if err := it.Err(); err != nil {
+		// a failed walk: only the error and what was left behind are reported
+		out = []string{errClass(err)}
 	}
 	if g := runtime.NumGoroutine(); g > base {
 		out = append(out, fmt.Sprintf("goroutine-leak:%d", g-base))
